@@ -245,8 +245,31 @@ def sample(ctx, budget=1.0, hint=None, broken=None):
             ss = sorted(set(ss))
         prev_t = None
         res_tol = max(1e-12, 8 * _ulp(L)) * 4
+        # 35%: the same object was asked before, with a much looser s_tol (whatever those calls leave behind - warm starts, memoised
+        # answers - must not degrade a later query at the default tolerance); the loose answers must meet their own tolerance
+        hist_src = ''
+        loose_s = []
+        if r.random() < 0.35:
+            for _ in range(r.randint(1, 3)):
+                s0 = float(L * r.uniform(0.05, 0.95))
+                st0 = float(L * r.choice([1e-1, 1e-2, 1e-3]))
+                try:
+                    with warnings.catch_warnings():
+                        warnings.simplefilter('ignore')
+                        tc = curve.ilength(s0, s_tol=st0)
+                    bk = arclen(curve, tc)
+                except Exception:
+                    continue
+                hist_src += 'c.ilength(%r, s_tol=%r), ' % (s0, st0)
+                loose_s.append(s0)
+                if abs(bk - s0) > st0 + res_tol:
+                    fail('ilength/not-inverse (loose s_tol)', 'length(0, ilength(s, s_tol)) differs from s by more than s_tol', {'curve': desc, 's': s0, 's_tol': st0, 'L': L},
+                         repr(bk), repr(s0), '(lambda c: c.length(0, c.ilength(%r, s_tol=%r)))(svgpathtools.%s)' % (s0, st0, desc))
+            # queries close to the loosely answered ones are the ones a warm start would serve
+            ss = sorted(set(ss + [min(L, max(0.0, x * (1 + d_))) for x in loose_s for d_ in (1e-3, -1e-3, 3e-2)]))
+            nontriv.add((kind, scale, 'after-loose'))
         for s in ss:
-            rep = 'svgpathtools.%s.ilength(%r)' % (desc, s)
+            rep = 'svgpathtools.%s.ilength(%r)' % (desc, s) if not hist_src else '(lambda c: (%sc.ilength(%r))[-1])(svgpathtools.%s)' % (hist_src, s, desc)
             try:
                 with warnings.catch_warnings():
                     warnings.simplefilter('ignore')
@@ -293,7 +316,7 @@ def sample(ctx, budget=1.0, hint=None, broken=None):
             samples.append({'curve': desc[:200], 'L': L, 's': ss[:4]})
     return {'evaluations': n_eval, 'distinct_nontrivial': len(nontriv), 'failures': fails, 'samples': samples,
             'rule': 'random Line/Quadratic/Cubic/Arc segments and mixed paths (some traversing equal segments twice) at coordinate scales 1e-3..1e6; '
-                    's in {0, L, L/2, near the ends, random, segment boundaries} and just outside [0,L]. distinct = distinct (kind, scale)'}
+                    's in {0, L, L/2, near the ends, random, segment boundaries} and just outside [0,L]; 35% of the curves are first asked 1-3 times with a loose s_tol (1e-1..1e-3 of L), then at the default tolerance at and around those arc lengths. distinct = distinct (kind, scale)'}
 
 
 def replay(spt, f):
